@@ -9,17 +9,19 @@ From CGV Require Import Base.PyBase Base.PyVal Base.NxGraph Dialect.DialectImpl
 Import ListNotations.
 Open Scope Z_scope.
 
-Definition plain (nm : pystr) (o : bool) (c : option (option sym)) : lin :=
-  {| l_open := o; l_name := nm; l_mult := None; l_rings := []; l_bond := None; l_close := c |}.
+Definition plainb (nm : pystr) (o : bool) (b : option sym) (c : option (option sym)) : lin :=
+  {| l_open := o; l_name := nm; l_mult := None; l_rings := []; l_bond := b; l_close := c |}.
+Definition plain (nm : pystr) (o : bool) (c : option (option sym)) : lin := plainb nm o None c.
 Definition expand_lin_item (i : lin) : list lin :=
   match l_mult i with
   | None => [i]
   | Some ds =>
       match digits_nat ds with
       | O => []
-      | Datatypes.S O => [plain (l_name i) (l_open i) (l_close i)]
+      | Datatypes.S O => [plainb (l_name i) (l_open i) (l_bond i) (l_close i)]
       | Datatypes.S (Datatypes.S k) =>
-          plain (l_name i) (l_open i) None :: repeat (plain (l_name i) false None) k ++ [plain (l_name i) false (l_close i)]
+          plain (l_name i) (l_open i) None :: repeat (plain (l_name i) false None) k
+          ++ [plainb (l_name i) false (l_bond i) (l_close i)]
       end
   end.
 Definition expand_lin (l : list lin) : list lin := flat_map expand_lin_item l.
@@ -46,27 +48,26 @@ Lemma expand_item_toks fo i ts x : lin_ok fo i = true ->
 Proof.
   intros Hok. destruct (lin_ok_parts fo i Hok) as (_ & _ & Hm & _). unfold expand_lin_item.
   destruct (l_mult i) as [ds|] eqn:Em; [|cbn [flat_map]; now rewrite app_nil_r].
-  destruct Hm as (Er & Eb & _ & H1).
+  destruct Hm as (Er & _ & H1).
+  set (tl := osym_tok (l_bond i) ++ match l_close i with Some a => TClose :: osym_tok a | None => [] end).
   assert (Et : forall ts', m_run fo (lin_toks i ++ ts') x
-             = m_run fo ((if l_open i then [TOpen] else []) ++ repeat (TNode (l_name i) 1) (digits_nat ds)
-                         ++ match l_close i with Some a => TClose :: osym_tok a | None => [] end ++ ts') x).
-  { intros ts'. unfold lin_toks. rewrite Em, Er, Eb. cbn [mult_val map osym_tok app]. rewrite <- !app_assoc.
+             = m_run fo ((if l_open i then [TOpen] else []) ++ repeat (TNode (l_name i) 1) (digits_nat ds) ++ tl ++ ts') x).
+  { intros ts'. unfold lin_toks, tl. rewrite Em, Er. cbn [mult_val map app]. rewrite <- !app_assoc.
     destruct (l_open i); cbn [app].
-    - rewrite !m_run_open. now rewrite m_node_split by assumption.
-    - now rewrite m_node_split by assumption. }
+    - rewrite !m_run_open. rewrite m_node_split by assumption. now rewrite <- !app_assoc.
+    - rewrite m_node_split by assumption. now rewrite <- !app_assoc. }
   rewrite Et. clear Et.
+  assert (L1 : forall o b c, lin_toks (plainb (l_name i) o b c)
+               = (if o then [TOpen] else []) ++ TNode (l_name i) 1 :: osym_tok b ++ match c with Some a => TClose :: osym_tok a | None => [] end).
+  { intros o b c. unfold lin_toks. cbn [plainb l_open l_name l_mult l_rings l_bond l_close mult_val map app]. reflexivity. }
   destruct (digits_nat ds) as [|[|k]]; [lia| |].
-  - cbn [flat_map lin_toks plain l_open l_name l_mult l_rings l_bond l_close mult_val map osym_tok app repeat].
-    rewrite <- !app_assoc. reflexivity.
-  - assert (L1 : forall o c, lin_toks (plain (l_name i) o c)
-                 = (if o then [TOpen] else []) ++ TNode (l_name i) 1 :: match c with Some a => TClose :: osym_tok a | None => [] end).
-    { intros o c. destruct o, c; reflexivity. }
-    assert (L2 : forall k', flat_map lin_toks (repeat (plain (l_name i) false None) k') = repeat (TNode (l_name i) 1) k').
+  - cbn [flat_map repeat app]. rewrite L1. unfold tl. repeat (rewrite <- app_assoc; cbn [app]). reflexivity.
+  - assert (L2 : forall k', flat_map lin_toks (repeat (plain (l_name i) false None) k') = repeat (TNode (l_name i) 1) k').
     { induction k' as [|k' IHk]; [reflexivity|]. cbn [repeat flat_map]. rewrite IHk. reflexivity. }
     assert (Erp : forall (t : tok) k' rest, repeat t k' ++ t :: rest = t :: repeat t k' ++ rest).
     { intros t0 k' rest. induction k' as [|k' IHk]; [reflexivity|]. cbn [repeat app]. now rewrite IHk. }
-    f_equal. cbn [flat_map]. rewrite flat_map_app. cbn [flat_map]. rewrite !L1, L2. rewrite <- !app_assoc.
-    f_equal. cbn [app repeat]. f_equal. rewrite Erp. reflexivity.
+    f_equal. cbn [flat_map]. rewrite flat_map_app. cbn [flat_map]. unfold plain at 1. rewrite !L1, L2. unfold tl.
+    repeat (rewrite <- app_assoc; cbn [app]). f_equal. cbn [repeat app]. f_equal. rewrite Erp. reflexivity.
 Qed.
 
 Lemma expand_toks fo : forall l x, forallb (lin_ok fo) l = true ->
@@ -84,15 +85,18 @@ Theorem denote_expand_lin fo l : forallb (lin_ok fo) l = true -> denote_lin fo (
 Proof. intros H. unfold denote_lin. now rewrite expand_toks. Qed.
 
 (** the expanded string is again a flat string of the grammar *)
+Lemma plainb_ok fo nm o b c : name_ok fo nm = true -> (c <> None -> b = None) -> lin_ok fo (plainb nm o b c) = true.
+Proof. intros H Hc. unfold lin_ok. cbn. rewrite H. destruct c; [|reflexivity]. now rewrite Hc. Qed.
 Lemma plain_ok fo nm o c : name_ok fo nm = true -> lin_ok fo (plain nm o c) = true.
-Proof. intros H. unfold lin_ok. cbn. rewrite H. now destruct c. Qed.
+Proof. intros H. apply plainb_ok; [assumption|reflexivity]. Qed.
 Lemma expand_item_ok fo i : lin_ok fo i = true -> forallb (lin_ok fo) (expand_lin_item i) = true.
 Proof.
-  intros Hok. destruct (lin_ok_parts fo i Hok) as (Hn & _). unfold expand_lin_item.
+  intros Hok. destruct (lin_ok_parts fo i Hok) as (Hn & _ & _ & Hc). unfold expand_lin_item.
   destruct (l_mult i) as [ds|]; [|cbn; now rewrite Hok].
+  assert (Hcb : l_close i <> None -> l_bond i = None) by (destruct (l_close i); [intros _; exact Hc|intros C; now elim C]).
   destruct (digits_nat ds) as [|[|k]]; [reflexivity| |].
-  - cbn [forallb]. now rewrite plain_ok.
-  - cbn [forallb]. rewrite plain_ok by assumption. rewrite forallb_app. cbn [forallb]. rewrite plain_ok by assumption.
+  - cbn [forallb]. now rewrite plainb_ok.
+  - cbn [forallb]. rewrite plain_ok by assumption. rewrite forallb_app. cbn [forallb]. rewrite plainb_ok by assumption.
     rewrite andb_true_r. cbn [andb]. induction k as [|k IH]; [reflexivity|]. cbn [repeat forallb]. now rewrite plain_ok.
 Qed.
 Lemma depth_mids nm : forall k d rest, lin_depth d (repeat (plain nm false None) k ++ rest) = lin_depth d rest.
@@ -101,10 +105,10 @@ Lemma expand_item_depth fo i d rest : lin_ok fo i = true ->
   lin_depth d (expand_lin_item i ++ rest) = lin_depth d (i :: rest).
 Proof.
   intros Hok. destruct (lin_ok_parts fo i Hok) as (_ & _ & Hm & _). unfold expand_lin_item.
-  destruct (l_mult i) as [ds|]; [|reflexivity]. destruct Hm as (_ & _ & _ & H1).
+  destruct (l_mult i) as [ds|]; [|reflexivity]. destruct Hm as (_ & _ & H1).
   destruct (digits_nat ds) as [|[|k]]; [lia|reflexivity|].
-  cbn [app lin_depth plain l_open l_close]. rewrite <- app_assoc. rewrite depth_mids.
-  cbn [app lin_depth plain l_open l_close]. reflexivity.
+  cbn [app lin_depth plain plainb l_open l_close]. rewrite <- app_assoc. rewrite depth_mids.
+  cbn [app lin_depth plain plainb l_open l_close]. reflexivity.
 Qed.
 Lemma depth_congr i : forall d t t', (forall d', lin_depth d' t = lin_depth d' t') -> lin_depth d (i :: t) = lin_depth d (i :: t').
 Proof.
@@ -128,7 +132,7 @@ Proof.
   destruct l as [|i t]; [reflexivity|]. cbn [forallb] in Hok. apply andb_prop in Hok as [Hi _].
   destruct (lin_ok_parts fo i Hi) as (_ & _ & Hm & _).
   unfold expand_lin. cbn [flat_map]. unfold expand_lin_item. destruct (l_mult i) as [ds|]; [|exact Hf].
-  destruct Hm as (_ & _ & _ & H1). destruct (digits_nat ds) as [|[|k]]; [lia|exact Hf|exact Hf].
+  destruct Hm as (_ & _ & H1). destruct (digits_nat ds) as [|[|k]]; [lia|exact Hf|exact Hf].
 Qed.
 
 Definition base_text (l : list lin) : pystr := "{"%char :: lins_str l ++ ["}"%char].
